@@ -85,7 +85,7 @@ def gen_case(rng, maxc=12, nfrag=None):
         clen = contigs[ci][1]
         L1, L2 = rng.randint(20, 40), rng.randint(20, 40)
         kinds = ['pair', 'pair', 'pair', 'pair_rev', 'single', 'half', 'orphan', 'split', 'invalid_motif', 'invalid_orient',
-                 'qcfail', 'dup', 'dup', 'secondary', 'orphan_unmapped']
+                 'qcfail', 'dup', 'dup', 'secondary', 'orphan_unmapped', 'umi_triple']
         if unmapped_policy != 'none':
             kinds += ['unmapped_pair', 'unmapped_single'] * (3 if unmapped_policy == 'many' else 1)
         kind = rng.choice(kinds)
@@ -162,6 +162,17 @@ def gen_case(rng, maxc=12, nfrag=None):
         elif kind == 'invalid_orient':
             mk(name, PAIRED | R1, ci, p1, s1, c1, ci, p2, tg, kind)
             mk(name, PAIRED | R2, ci, p2, s2, c2, ci, p1, tg, kind)
+        elif kind == 'umi_triple':
+            # same cell and cut site: two molecules whose UMIs are 2 mismatches apart, then a fragment whose UMI is 1 mismatch
+            # from both (it may join only ONE of them); the third pair completes last
+            b = rng.choice('ACGT')
+            o1, o2 = rng.sample([x for x in 'ACGT' if x != b], 2)
+            for j, u in enumerate((b + b + b, b + o1 + o2, b + b + o2)):
+                tgj = tags(cell, u)
+                nm = '%s:%d' % (name.rsplit(':', 1)[0], 7000 + 10 * fid + j)
+                p2j = min(p1 + 30 + 6 * j, max(0, clen - L2))
+                mk(nm, PAIRED | PROPER | MREV | R1, ci, p1, 'CATG' + rand_seq(rng, L1 - 4), '%dM' % L1, ci, p2j, tgj, kind)
+                mk(nm, PAIRED | PROPER | REV | R2, ci, p2j, rand_seq(rng, L2), c2, ci, p1, tgj, kind)
         elif kind == 'qcfail':
             mk(name, PAIRED | PROPER | MREV | R1 | QCFAIL, ci, p1, s1, c1, ci, p2, tg, kind)
             mk(name, PAIRED | PROPER | REV | R2 | QCFAIL, ci, p2, s2, c2, ci, p1, tg, kind)
@@ -175,6 +186,16 @@ def gen_case(rng, maxc=12, nfrag=None):
             mk(name, PAIRED | UNMAP | MUNMAP | R2, -1, -1, s2, '', -1, -1, tg, kind)
         elif kind == 'unmapped_single':
             mk(name, UNMAP, -1, -1, s1, '', -1, -1, tg, kind)
+    # some pairs whose mates are not co-located (mate unmapped, other contig, both unmapped, mate missing) are flagged
+    # QC-fail in the INPUT (0x200 set upstream): their mate number must survive as well
+    bynm = collections.defaultdict(list)
+    for r in recs:
+        bynm[r['n']].append(r)
+    for nm, rs in bynm.items():
+        if rs[0]['kind'] in ('half', 'split', 'unmapped_pair', 'orphan', 'orphan_unmapped') and rng.random() < 0.3:
+            for r in rs:
+                r['f'] |= QCFAIL
+                r['kind'] += '_qcfail'
     # a quarter of the libraries carry the demultiplexer's information in the query name instead of in tags (the
     # form the mapper leaves behind): QueryNameFlagger then moves it into tags and restores the Illumina name
     name_form = 'qname' if rng.random() < 0.25 else 'tags'
@@ -787,7 +808,7 @@ class Prop(fw.PropBase):
                                 'only_impl': sorted((b - a).elements())[:4], 'n_model': len(mrows), 'n_impl': len(irows)})
                 elif mrg != irg:
                     dis.append({'level': 'e2e', 'case': ci, 'run': spec, 'header_rg_model': mrg, 'header_rg_impl': irg})
-        n_inv = sum(v for k, v in hist_kind.items() if k in ('invalid_motif', 'invalid_orient', 'qcfail', 'half', 'unmapped_pair', 'unmapped_single', 'orphan_unmapped'))
+        n_inv = sum(v for k, v in hist_kind.items() if k.endswith('_qcfail') or k in ('invalid_motif', 'invalid_orient', 'qcfail', 'half', 'unmapped_pair', 'unmapped_single', 'orphan_unmapped'))
         self.cov.update({
             'evaluations': len(slices) + n_runs,
             'distinct_nontrivial': len(set(fw.canon_hash(s) for s in slices if len(s) >= 2)) + len(nontrivial),
